@@ -154,8 +154,8 @@ pub fn run(ctx: &Ctx) -> Report {
         "Exhaustive enumeration: (0) web_atoms::NAMED_ENTITIES vs the frozen Python html.entities.html5 table (every name, every proper prefix, nothing extra); (1) each of the 2231 names and each name truncated by one character x {63 alphanumeric-or-semicolon extensions, 18 other followers incl. EOF, = & < space LF CR NUL quotes # and a following reference} x {data, RCDATA, double-quoted, single-quoted, unquoted attribute value} through html5ever's tokenizer, expected output from the reference character-reference algorithm (longest match over the frozen table, legacy attribute exception, missing-semicolon rule) and directly from the table for exact ';'-terminated names; (2) numeric references: every value 0..=0x110000 as hex with ';' in text, the other forms (decimal, without ';', attribute context, upper-case X) on a stride (quick 1/16, thorough every value), overflow digit strings of 1..24 digits, leading zeros, digit-less '&#'/'&#x' with followers; (3) every ';'-terminated name through xml5ever's tokenizer. Non-trivial: every case is a character-reference case; distinct by (context, text).",
     );
     rep.assume("frozen entity table = Python 3 html.entities.html5 (2231 names, identical to the WHATWG table)");
-    report_known(ctx, &mut rep, &|v| replay(ctx, v));
-    run_regressions(ctx, &mut rep, &|v| replay(ctx, v));
+    report_known(ctx, &mut rep, &|v| replay(&ctx.strict_clone(), v));
+    run_regressions(ctx, &mut rep, &|v| replay(&ctx.strict_clone(), v));
     let mut all_done = true;
 
     // (0)
